@@ -210,11 +210,17 @@ def sweep(tier, seed):
                               'observed': probs[:3], 'expected': 'DONE iff both steps exit with zero; the build step is not run after a failing configure step'})
     finally:
         shutil.rmtree(root, ignore_errors=True)
+    # generated (unnamed) tasks: the name IS the output directory -- tasks running different command lines never get the same one
+    from . import tasks_native
+    n2, clashes = tasks_native.factory_name_clashes()
+    n += n2
+    if clashes:
+        fails.append({'input': {'unnamed_tasks_of_several_factories': True}, 'observed': clashes[:3], 'expected': 'each task has its own directory: different command lines, different names'})
     return {'name': 'run-task-native', 'evaluations': n, 'distinct': n, 'failures': fails[:8], 'exhaustive': True,
             'bound': f'real RunTask with real child processes: all lists of <= {2 if tier == "quick" else 3} commands with exit status 0 / 1 / missing executable '
                      '(+ selected 3-command lists in the quick tier), both streams; 14 task names incl. empty, ".", "..", with slash / NUL / newline / space; '
                      '12 look-alike names (case, inner / surrounding whitespace) for directory ownership; one task run twice in the same directory; working directory and recorded command lines; BuildTask with a scripted fake cmake: configure / build exit 0 or 1, fresh and already '
-                     'configured build directory', 'samples': [{'name': 'task7', 'exit_statuses': [0, 1, 0]}]}
+                     'configured build directory; names of the unnamed tasks of 5 factories (executable / default arguments / default keywords)', 'samples': [{'name': 'task7', 'exit_statuses': [0, 1, 0]}]}
 
 
 def replay(inp):
